@@ -125,6 +125,9 @@ class Boom(OSError):
     pass
 
 
+SIZES["Z"] = 0  # a resource of exactly zero bytes (an empty listing, a placeholder file)
+
+
 def make_resource(log, plan=None, delays=None, salt="", version=None):
     """plan: dict base-key -> fault kind for the *next* fetch of that key (popped when used)
        kinds: 'notfound', 'raise-before', 'raise-half', 'ok'."""
